@@ -55,6 +55,11 @@ def conforms_py(S, ty, v) -> bool:
             if not conforms_py(S, f["ty"], getattr(v, f["name"])):
                 return False
         return True
+    if k == "nt":
+        # an instance of exactly that NamedTuple class, of the declared arity, every item conforming to its field type
+        fs = w["classes"][ty[1]]["fields"]
+        return (type(v) is S.R.classes[ty[1]] and len(v) == len(fs)
+                and all(conforms_py(S, f["ty"], e) for f, e in zip(fs, v)))
     if k == "union":
         # an instance of exactly one of the member classes (conforming as that class), or None when None is a member
         if v is None:
@@ -77,7 +82,7 @@ def run(chk: framework.Check):
     drv = lean.Driver()
     n_worlds = 120 if chk.tier == "quick" else 1500
     corr_fail = []
-    for G, S, w in streams.worlds(chk, drv, n_worlds, unions=True):
+    for G, S, w in streams.worlds(chk, drv, n_worlds, unions=True, nt=True):
         for ty, x, xv in streams.typed_values(chk, G, S, w, n_types=4, n_values=1):
             has_union = bool(gen.reach_unions(w, ty))
             for cfg in CFGS:
